@@ -55,12 +55,11 @@ package jsonapi
 
 // NewParams: proved panic-free with error-xor-result; its frame (it only writes
 // objects it allocates) is declared and assumed (flag noframe), not yet proved.
-//@ spec pFresh(params *Params) = forall k string :: k in params.Fields ==> fresh(params.Fields[k])
-//@ spec pOK(params *Params, schema *Schema) = schema != nil && params != nil && fresh(params) && params.Fields != nil && fresh(params.Fields) && params.Attrs != nil && params.Rels != nil && unchanged(heap[string]) && pFresh(params)
+//@ spec pFresh(params *Params) = (forall k string :: k in params.Fields ==> fresh(params.Fields[k])) && fresh(params.Attrs) && fresh(params.Rels) && (forall k string :: k in params.Attrs ==> cap(params.Attrs[k]) == 0 || fresh(params.Attrs[k])) && (forall k string :: k in params.Rels ==> cap(params.Rels[k]) == 0 || fresh(params.Rels[k]))
+//@ spec pOK(params *Params, schema *Schema) = schema != nil && params != nil && fresh(params) && params.Fields != nil && fresh(params.Fields) && params.Attrs != nil && params.Rels != nil && unchanged(heap[string]) && pFresh(params) && unchanged(heap[Attr]) && unchanged(heap[[]Rel]) && unchanged(heap[Rel]) && unchanged(maps[map[string][]Attr]) && unchanged(maps[map[string][]Rel]) && unchanged(maps[map[string][]string])
 //@ func NewParams
-//@ flag noframe
 //@ flag absolute-quantifiers
-//@ props C07
+//@ props C07 C12
 //@ requires schema: schema != nil
 //@ requires su: suWf(su)
 //@ modifies new[Params], new[string], new[[]string], new[map[string][]string], new[map[string][]Attr], new[map[string][]Rel], new[Attr], new[Rel], new[[]Rel]
@@ -103,3 +102,32 @@ package jsonapi
 //@ requires schema: schema != nil && targetsExist(schema)
 //@ modifies new[URL], new[Params], new[string], new[[]string], new[map[string][]string], new[map[string][]Attr], new[map[string][]Rel], new[Attr], new[Rel], new[[]Rel], new[any], new[map[string]any], new[Filter], new[*Filter], new[uint8], new[time.Time], new[url.URL]
 //@ ensures error-xor-result: (result1 != nil) == (result0 == nil)
+
+// Sorting rules of collection URLs always mention id (C07): either the caller's
+// id rule (kept at the position it had among the kept rules) or a trailing "id".
+//@ func NewParams+
+//@ spec isIdRule(r string) = r == "id" || r == "-id"
+//@ ghost after len#15 n0 = len(sortingRules)
+//@ assert after len#15 id-last: idFound ==> n0 >= 1 && isIdRule(sortingRules[n0 - 1])
+//@ loop 14 invariant no-id-yet: idFound == false
+//@ loop 16 invariant id-kept: sortingRules == pre(sortingRules) && idFound == pre(idFound) && (idFound ==> n0 >= 1 && n0 <= len(sortingRules) && isIdRule(sortingRules[n0 - 1]))
+//@ loop 17 invariant id-kept: sortingRules == pre(sortingRules) && idFound == pre(idFound) && (idFound ==> n0 >= 1 && n0 <= len(sortingRules) && isIdRule(sortingRules[n0 - 1]))
+//@ exit-assert sort-has-id: result1 == nil && isCol ==> len(result0.SortingRules) >= 1 && ((n0 >= 1 && n0 <= len(result0.SortingRules) && isIdRule(result0.SortingRules[n0 - 1])) || isIdRule(result0.SortingRules[len(result0.SortingRules) - 1]))
+//@ assert after Strings#1 id-still: (idFound ==> n0 >= 1 && n0 <= len(sortingRules) && isIdRule(sortingRules[n0 - 1]))
+
+// The caller's rules that are kept name id or an attribute of the type.
+//@ func NewParams+
+//@ spec pure ruleName(r string) = ite(prefixof("-", r), substr(r, 1, len(r) - 1), r)
+//@ spec attrNamed(t Type, n string) = exists a string :: a in t.Attrs && t.Attrs[a].Name == n
+//@ spec validRule(r string, t Type) = ruleName(r) == "id" || attrNamed(t, ruleName(r))
+//@ ghost after GetType#9 typ0 = $result
+//@ loop 14 invariant valid-so-far: forall k int :: 0 <= k && k < len(sortingRules) ==> validRule(sortingRules[k], typ0)
+//@ loop 15 invariant valid-so-far: forall k int :: 0 <= k && k < len(sortingRules) ==> validRule(sortingRules[k], typ0)
+//@ loop 15 invariant urule: urule == ruleName(rule) && sortingRules == pre(sortingRules)
+//@ assert after len#15 valid-given: forall k int :: 0 <= k && k < n0 ==> validRule(sortingRules[k], typ0)
+//@ loop 16 invariant valid-kept: n0 <= len(sortingRules) && (forall k int :: 0 <= k && k < n0 ==> validRule(sortingRules[k], typ0))
+//@ loop 17 invariant valid-kept: n0 <= len(sortingRules) && (forall k int :: 0 <= k && k < n0 ==> validRule(sortingRules[k], typ0))
+//@ assert after Strings#1 valid-still: n0 <= len(sortingRules) && (forall k int :: 0 <= k && k < n0 ==> validRule(sortingRules[k], typ0))
+//@ exit-assert sort-valid-given: result1 == nil && isCol ==> n0 <= len(result0.SortingRules) && (forall k int :: 0 <= k && k < n0 ==> validRule(result0.SortingRules[k], typ0))
+//@ assert before append#6 id-rule-valid: validRule(rule, typ0)
+//@ assert before append#7 attr-rule-valid: validRule(rule, typ0)
